@@ -564,6 +564,37 @@ static void own_generated(unsigned F, unsigned G, const std::string &only) {
 		return a.CheckGroup() && b.CheckGroup() && c.CheckGroup() && d.CheckGroup() && e.CheckGroup() && f.CheckGroup() && g.CheckGroup() && i.CheckGroup() && j.CheckGroup(); });
 }
 
+// ---- many generators: the commitment scheme keeps fixed-base tables only for the first TMCG_MAX_FPOWM_N generators, every
+// loop of CheckGroup must nevertheless run over all of them -----------------------------------------------------------------
+static void run_many_gens(const std::vector<Cls> &cls, const std::string &only) {
+	unsigned G = 11 + gen().below(3), F = 2 * G + 4 + gen().below(6);
+	Params W = make_group(F, G, TMCG_MAX_CARDS);
+	Z nonmem, t; for (;;) { gen_below(nonmem.w(), W.p); if (zcmpui(nonmem, 2) < 0) continue; mpz_powm(t.w(), nonmem, W.q, W.p); if (zcmpui(t, 1)) break; }
+	std::vector<size_t> ns = { TMCG_MAX_FPOWM_N - 1, TMCG_MAX_FPOWM_N, TMCG_MAX_FPOWM_N + 1, TMCG_MAX_FPOWM_N + 2, 300, TMCG_MAX_CARDS };
+	for (size_t n : ns) {
+		Params V = W; V.gs.resize(n);
+		std::vector<Params> ps; std::vector<std::string> names;
+		ps.push_back(V); names.push_back("valid");
+		std::set<size_t> idx = { 0, TMCG_MAX_FPOWM_N - 1, TMCG_MAX_FPOWM_N, n - 1 };
+		for (size_t i : idx) {
+			if (i >= n) continue;
+			std::string at = "g[" + std::to_string(i) + "]";
+			{ Params P = V; P.gs[i] = nonmem; ps.push_back(P); names.push_back(at + "=nonmember"); }
+			{ Params P = V; mpz_set_ui(P.gs[i].w(), 1); ps.push_back(P); names.push_back(at + "=1"); }
+			{ Params P = V; mpz_sub_ui(P.gs[i].w(), V.p, 1); ps.push_back(P); names.push_back(at + "=p-1"); }
+			{ Params P = V; P.gs[i] = V.h; ps.push_back(P); names.push_back(at + "=h"); }
+			{ Params P = V; P.gs[i] = V.gs[i ? i - 1 : 1]; ps.push_back(P); names.push_back(at + "=neighbour"); }
+			{ Params P = V; mpz_add(P.gs[i].w(), V.gs[i], V.p); ps.push_back(P); names.push_back(at + "=x+p"); }
+		}
+		for (const Cls &c : cls) {
+			if (c.shape != S_COM && c.shape != S_VSSHE) continue;
+			if (!only.empty() && only != c.name) continue;
+			std::vector<std::string> vs = guarded_batch(ps.size(), [&](size_t j) { return b01(c.check(ps[j], false)); }, 120);
+			for (size_t j = 0; j < ps.size(); j++) judge(c, "many" + std::to_string(n), "n=" + std::to_string(n) + "," + names[j], ps[j], false, true, vs[j]);
+		}
+	}
+}
+
 // ---- QR class ---------------------------------------------------------------------------------------------------------------
 static void run_qr(const std::vector<Cls> &cls, unsigned F0, bool with_rec) {
 	const Cls *qc = nullptr; for (const Cls &c : cls) if (c.shape == S_QR) qc = &c;
@@ -717,6 +748,7 @@ int main(int argc, char **argv) {
 			{ unsigned qf = 8 + gen().below(40); if (SHARD_I == 0 && (only.empty() || only == "qr")) run_qr(cls, qf, true); }
 		}
 	}
+	if (want("many")) run_many_gens(cls, only);
 	if (want("big")) {     // implementation-level oracle only
 		unsigned F = A.thorough() ? 1024 : 512, G = 160;
 		Params V = make_group(F, G, 3), S = make_group(F - 8, G, 3), Q = make_group(F, G, 3, true);
